@@ -10,6 +10,7 @@ import (
 	"path/filepath"
 	"sort"
 	"strings"
+	"time"
 
 	rootutils "github.com/PapaCharlie/go-restli/codegen/utils"
 	v2utils "github.com/PapaCharlie/go-restli/v2/codegen/utils"
@@ -51,7 +52,17 @@ const (
 	kManifestDirFull  // a directory named like the manifest holding a user file: os.Remove fails, the clean aborts
 	kSymlinkDir       // a symbolic link to a directory OUTSIDE the tree that holds generated files: must be left alone, and so must its target
 	kNested
+	// names and kinds at odds (appended after kNested so that the random generator's arithmetic on the first kinds is unchanged)
+	kGenDirFull  // a DIRECTORY named like a generated file (x.gr.go/) holding a user file and a generated file
+	kGenDirGen   // a directory named like a generated file holding generated files only (disappears with them)
+	kGenDirEmpty // an empty directory named like a generated file
+	kJsonDir     // a directory named like a generated JSON file (y.gr.json/) holding user files
+	kSpecialDir  // a directory whose name means something to the go tool or to tools (vendor, internal, testdata, .hidden, _x, ...) holding generated and user files
+	kSpecialGen  // such a directory holding generated files only
+	kFileAsDir   // a regular FILE whose name looks like a directory / package name
 )
+
+var specialDirs = []string{"vendor", "internal", "testdata", ".hidden", "_skip", "node_modules", ".git", "gr.go"}
 
 func leafNode(m *module, kind, pos int, salt string) *Node {
 	p := fmt.Sprintf("%c%d", 'a'+pos, pos)
@@ -75,6 +86,21 @@ func leafNode(m *module, kind, pos int, salt string) *Node {
 		return &Node{Name: m.manifest, Dir: true, Children: []*Node{{Name: "keep.go", Content: "user"}}}
 	case kSymlinkDir:
 		return &Node{Name: p + "link", Content: "-> " + outsideDir, Link: true}
+	case kGenDirFull:
+		return &Node{Name: p + "tmpl" + m.suffix, Dir: true, Children: []*Node{{Name: "Custom.go", Content: "package x // user " + salt}, {Name: "y" + m.suffix, Content: "// generated"}}}
+	case kGenDirGen:
+		return &Node{Name: p + "only" + m.suffix, Dir: true, Children: []*Node{{Name: "y" + m.suffix, Content: "// generated"}}}
+	case kGenDirEmpty:
+		return &Node{Name: p + "empty" + m.suffix, Dir: true}
+	case kJsonDir:
+		return &Node{Name: p + "fixtures.gr.json", Dir: true, Children: []*Node{{Name: "a.json", Content: "{} " + salt}, {Name: "b.gr.json", Content: "{}"}}}
+	case kSpecialDir:
+		return &Node{Name: specialDirs[pos%len(specialDirs)], Dir: true, Children: []*Node{{Name: "keep.go", Content: "package x // user " + salt}, {Name: "z" + m.suffix, Content: "// generated"}}}
+	case kSpecialGen:
+		return &Node{Name: specialDirs[(pos+3)%len(specialDirs)], Dir: true, Children: []*Node{{Name: "sub", Dir: true, Children: []*Node{{Name: "z" + m.suffix, Content: "// generated"}}}, {Name: "z" + m.suffix, Content: "// generated"}}}
+	case kFileAsDir:
+		alts := []string{"vendor", p + "sub", "pkg", "internal", "com"}
+		return &Node{Name: alts[pos%len(alts)], Content: "a regular file " + salt}
 	}
 	panic("kind")
 }
@@ -136,6 +162,10 @@ func randomTree(m *module, r *hx.Rand, d, w int) []*Node {
 	var out []*Node
 	for pos := 0; pos < n; pos++ {
 		k := r.Intn(10)
+		if r.Chance(18) {
+			out = append(out, leafNode(m, kGenDirFull+r.Intn(kFileAsDir-kGenDirFull+1), pos, fmt.Sprint(r.Intn(3))))
+			continue
+		}
 		if k >= kNested {
 			if d > 1 {
 				out = append(out, &Node{Name: fmt.Sprintf("%c%dsub", 'a'+pos, pos), Dir: true, Children: randomTree(m, r, d-1, w)})
@@ -210,6 +240,18 @@ func makeOutside() {
 
 var outsideWant string
 
+var scratchBase string // "" = os.TempDir()
+
+// relink: a replayed tree names the outside directory of the run that recorded it; point its links to this run's
+func relink(l []*Node) {
+	for _, n := range l {
+		if n.Link && strings.HasSuffix(n.Content, "/outside") {
+			n.Content = "-> " + outsideDir
+		}
+		relink(n.Children)
+	}
+}
+
 func jsonOf(v interface{}) string {
 	b, _ := json.Marshal(v)
 	return string(b)
@@ -256,14 +298,14 @@ func owned(m *module, path string) bool {
 }
 
 type caseDesc struct {
-	Module   string  `json:"module"`
-	Exists   bool    `json:"exists"`
-	Dot      bool    `json:"dot"`
-	Tree     []*Node `json:"tree"`
-	After    []*Node `json:"after"`
-	AfterEx  bool    `json:"after_exists"`
-	Ok       bool    `json:"ok"`
-	ErrText  string  `json:"err,omitempty"`
+	Module  string  `json:"module"`
+	Exists  bool    `json:"exists"`
+	Dot     bool    `json:"dot"`
+	Tree    []*Node `json:"tree"`
+	After   []*Node `json:"after"`
+	AfterEx bool    `json:"after_exists"`
+	Ok      bool    `json:"ok"`
+	ErrText string  `json:"err,omitempty"`
 }
 
 func runCase(m *module, scratch string, exists, dot bool, tree []*Node, rep *hx.Report, sh *hx.Shards) {
@@ -387,13 +429,52 @@ func min(a, b int) int {
 	return b
 }
 
+// namedDirSweep: for every directory name that means something to the go tool / other tools, and for names that look like
+// generated files, the same small trees with that name at depth 1 and 2
+func namedDirSweep(m *module, emit func([]*Node)) {
+	gen := func() *Node { return &Node{Name: "T" + m.suffix, Content: "// generated"} }
+	usr := func() *Node { return &Node{Name: "helpers.go", Content: "package x // user"} }
+	dir := func(n string, cs ...*Node) *Node { return &Node{Name: n, Dir: true, Children: cs} }
+	names := append(append([]string{}, specialDirs...), "legacy"+m.suffix, "fixtures.gr.json", m.suffix, "all_imports_test"+m.suffix)
+	for _, n := range names {
+		emit([]*Node{dir(n, gen())})
+		emit([]*Node{dir(n, gen(), usr()), gen(), usr()})
+		emit([]*Node{dir(n, dir("sub", gen())), usr()})
+		emit([]*Node{dir("pkg", dir(n, gen(), usr()), gen())})
+		emit([]*Node{dir(n, dir(n, gen())), dir("pkg", gen())})
+		emit([]*Node{dir(n, dir("old", usr(), gen()), dir("fixtures", &Node{Name: "a.json", Content: "{}"}))})
+	}
+}
+
 func main() {
+	if os.Getenv("C20_CHILD") != "" {
+		childMain()
+		return
+	}
 	cfg := hx.ParseFlags()
-	rep := hx.NewReport("directory trees over {generated file, manifest file, user .go, look-alike files (x.gr.go.bak, fixtures.gr.json, ...), empty dir, dir named like the manifest (empty / non-empty), " +
+	rep := hx.NewReport("TREE CASES (each evaluated by the Coq model clean_target of Gen2/Clean.v and compared with the real CleanTargetDir: whole resulting tree and success flag; the theorems of Props/C20.v are about this model; Props/C20_history.v extends them to histories of clean + writes of owned names, which are NOT compared with the implementation): directory trees over {generated file, manifest file, user .go, look-alike files (x.gr.go.bak, fixtures.gr.json, ...), empty dir, dir named like the manifest (empty / non-empty), " +
 		"symbolic link to an outside directory holding generated files, nested dir}: quick = exhaustive depth 1 width <= 3 over all kinds (as a named target and as \".\"), exhaustive depth 2 width <= 2 over 6 kinds, " +
 		"depth 3 width <= 2 over generated files only, 400 seeded random trees of depth <= 3 width <= 3 per module, and a missing target; thorough = depth 2 over all kinds, depth 3 over {generated,user,empty dir}, 20000 random trees; both module generations. " +
-		"non-trivial = the tree holds at least one foreign file AND at least one owned file; distinct by (module, target kind, tree)")
-	scratch, err := os.MkdirTemp("", "verif-c20-")
+		"names and kinds at odds, both tiers: directories named like generated files (x.gr.go/ with user files, with generated files only, empty; y.gr.json/), directories named vendor, internal, testdata, .hidden, _skip, node_modules, .git, gr.go " +
+		"(holding generated and user files, at depth 1 and 2), regular files named like directories - exhaustive depth 1 width <= 2 with the basic kinds, depth 2 width <= 2 over {generated, user, x.gr.go/, special dir} (thorough: depth 1 width <= 3 over all kinds, depth 2 width <= 2 over {generated, user, manifest, x.gr.go/, y.gr.json/, special dir, file-as-dir}), a fixed sweep of 6 trees per name, and 18% of the random entries. " +
+		"non-trivial = the tree holds at least one foreign file AND at least one owned file; distinct by (module, target kind, tree). " +
+		"GENERATOR-LEVEL HISTORIES (oracle only, no model evaluated): the real cmd.GenerateCode of both modules in child processes on a project directory with foreign files (go.mod, main.go, docs/, hand-written .go and data files beside generated code, a symbolic link, owned-looking files OUTSIDE the output directory; output directory = a sub directory or the project root, given by path or as \".\"): " +
+		"(1) generate; regenerate; regenerate a changed schema set - for namespaces with the segments vendor, internal, testdata, gen.gr, _hidden, cmd, main, x.gr, node_modules, ... and v2 package roots .hidden/vendor (generateWithPackageRoot); " +
+		"(2) failing generations with an obstacle at every stage (regular file where a package directory is needed, non-empty directory where a code file / the all-imports test / the manifest / the custom-typeref init file has to go, undefined type reference, malformed manifest, " +
+		"unwritable directory when not running as root), placed after a first successful generation or present from the start (top-level namespace directory, typeref package, package-root directory, the output directory itself being a regular file), then removed and regenerated; " +
+		"(3) 30 (thorough: 300) seeded random histories per module of generations with obstacles coming and going. After EVERY run, successful or failed: nothing outside the output directory changed, every not-owned file below it is byte-identical, every new file has an owned name; " +
+		"a run with no obstacle in place must succeed and leave exactly the owned files of a generation of the same schema set into a fresh directory. One history = one distinct non-trivial input; every generator run = one evaluation")
+	// scratch trees live on tmpfs when there is one (the shared disk is 30x slower under load); C20_SCRATCH overrides
+	scratchBase = os.Getenv("C20_SCRATCH")
+	if scratchBase == "" {
+		if fi, err := os.Stat("/dev/shm"); err == nil && fi.IsDir() {
+			if d, err := os.MkdirTemp("/dev/shm", "verif-c20-probe-"); err == nil {
+				os.Remove(d)
+				scratchBase = "/dev/shm"
+			}
+		}
+	}
+	scratch, err := os.MkdirTemp(scratchBase, "verif-c20-")
 	must(err)
 	defer os.RemoveAll(scratch)
 	outsideDir = filepath.Join(scratch, "outside")
@@ -404,10 +485,30 @@ func main() {
 	if cfg.Replay != "" {
 		b, err := os.ReadFile(cfg.Replay)
 		must(err)
+		var rk struct {
+			Case struct {
+				Kind string `json:"kind"`
+			} `json:"case"`
+		}
+		must(json.Unmarshal(b, &rk))
+		if rk.Case.Kind == "history" {
+			var rh struct {
+				Case History `json:"case"`
+			}
+			must(json.Unmarshal(b, &rh))
+			rh.Case.FailedAtStep, rh.Case.Observed = 0, nil
+			relink(rh.Case.Initial)
+			runHistories(cfg, rep, &rh.Case)
+			sh.Close()
+			rep.Shards = sh.Files
+			rep.Write(cfg.Out)
+			return
+		}
 		var rp struct {
 			Case caseDesc `json:"case"`
 		}
 		must(json.Unmarshal(b, &rp))
+		relink(rp.Case.Tree)
 		for i := range modules {
 			if modules[i].name == rp.Case.Module {
 				runCase(&modules[i], scratch, rp.Case.Exists, rp.Case.Dot, rp.Case.Tree, rep, sh)
@@ -423,6 +524,9 @@ func main() {
 	fewKinds := []int{kGen, kUser, kEmptyDir}
 	r := hx.NewRand(cfg.Seed)
 	for i := range modules {
+		if os.Getenv("C20_ONLY") == "histories" { // development aid: skip the tree part
+			break
+		}
 		m := &modules[i]
 		runCase(m, scratch, false, false, nil, rep, sh)
 		both := func(cs []*Node) {
@@ -433,6 +537,15 @@ func main() {
 			runCase(m, scratch, true, true, cs, rep, sh)
 		}
 		enumerate(m, allKinds, 1, 3, dotToo)
+		namedDirSweep(m, dotToo)
+		oddKinds := []int{kGenDirFull, kGenDirGen, kGenDirEmpty, kJsonDir, kSpecialDir, kSpecialGen, kFileAsDir}
+		if cfg.Thorough() {
+			enumerate(m, append(append([]int{}, allKinds...), oddKinds...), 1, 3, dotToo)
+			enumerate(m, []int{kGen, kUser, kManifest, kGenDirFull, kJsonDir, kSpecialDir, kFileAsDir}, 2, 2, both)
+		} else {
+			enumerate(m, append([]int{kGen, kUser, kManifest, kEmptyDir}, oddKinds...), 1, 2, dotToo)
+			enumerate(m, []int{kGen, kUser, kGenDirFull, kSpecialDir}, 2, 2, both)
+		}
 		if cfg.Thorough() {
 			enumerate(m, allKinds, 2, 2, both)
 		} else {
@@ -453,6 +566,11 @@ func main() {
 			runCase(m, scratch, true, r.Chance(20), cs, rep, sh)
 		}
 	}
+	t0 := time.Now()
+	treeCases := rep.Evaluations
+	runHistories(cfg, rep, nil)
+	rep.Extra["tree_cases"] = treeCases
+	rep.Extra["history_seconds"] = int(time.Since(t0).Seconds())
 	rep.Exhaustive = false
 	sh.Close()
 	rep.Shards = sh.Files
